@@ -158,7 +158,13 @@ func c06Fingerprint(o object.PanObject, builtins map[object.PanObject]string, de
 	case *object.PanRange:
 		return fmt.Sprintf("range(%s:%s:%s)^%s", c06Fingerprint(v.Start, builtins, depth+1), c06Fingerprint(v.Stop, builtins, depth+1), c06Fingerprint(v.Step, builtins, depth+1), proto)
 	case *object.PanFunc:
-		return fmt.Sprintf("func(%d,%s)", v.FuncKind, v.Inspect())
+		// a function also "contains" its parameter names and keyword defaults
+		args, kwargs := "?", "?"
+		func() {
+			defer func() { recover() }()
+			args, kwargs = v.FuncWrapper.Args().Inspect(), v.FuncWrapper.Kwargs().Inspect()
+		}()
+		return fmt.Sprintf("func(%d,%s,args=%s,kwargs=%s)", v.FuncKind, v.Inspect(), args, kwargs)
 	case *object.PanErrWrapper:
 		// a caught error is a value: what it reports when raised again (its recorded
 		// frames) belongs to what it contains
@@ -346,7 +352,7 @@ var c06Infix = []string{"+", "-", "*", "/", "//", "%", "**", "==", "!=", "<", "<
 var c06Seeds = []string{
 	"[1, 2, 3]", "[[1], [2, 3]]", "[]", "\"abc\"", "\"\"", "'sym", "5", "-3", "0", "2.5", "{a: 1, b: [2]}", "{}", "{_p: 1, q: {r: 2}}",
 	"%{1: 2, \"k\": [3]}", "%{}", "%{[1]: 2}", "%{[1]: \"a\", [2]: \"b\", [3]: \"c\"}", "%{{a: 1}: 1, [2]: 2, nil: 3, [4, 5]: 4}", "%{3: 1, 1: 2, [0]: 3, 2: 4}",
-	"[[1, \"a\"], [[2], \"b\"], [[2], \"c\"]].M", "{c: 3, a: 1, b: 2, _z: 0}", "(1:4)", "(5:1:-2)", "(?a:?d)", "(0:3:true)", "(false:2)", "(1.bear({z: 1}):3)", "(0:2.bear({w: 5}):1)", "nil", "true", "false", "{|x| x}", "{|a, k: 1| [a, k]}",
+	"[[1, \"a\"], [[2], \"b\"], [[2], \"c\"]].M", "{c: 3, a: 1, b: 2, _z: 0}", "{|n| {|x, k: n| [x, k]}}", "{|n| {|x, k: n| [x, k]}}(1)", "(1:4)", "(5:1:-2)", "(?a:?d)", "(0:3:true)", "(false:2)", "(1.bear({z: 1}):3)", "(0:2.bear({w: 5}):1)", "nil", "true", "false", "{|x| x}", "{|a, k: 1| [a, k]}",
 	"[1, nil, 2]", "[3, 1, 2]", "\"a,b,c\"", "1.try", "1.try./(0)", "{a: 1}.bear({b: 2})", "Int.bear({twice: m{self * 2}}).new(4)", "Str.bear.new(\"sub\")",
 	"[\"x\", \"y\"]", "{name: \"n\", call: m{1}}", "(1:3).A", "\"#{1}x\"", "1.try./(0).err", "\"a\".try.{|x| raise ValueErr.new(\"v\")}.err", "5.try.nosuch.err",
 }
